@@ -228,10 +228,17 @@ def parse(fmt, textin):
     return textin.split("\n")
 
 
-def render(fmt, doc):
+def render(fmt, doc, rng=None):
+    """rng: render in a 'hand-written' style (shuffled JSON key order, varying INI spelling) - documents need not have
+    been written by this library."""
     if fmt in JSON_FORMATS:
+        if rng is not None and rng.random() < 0.5:
+            return json.dumps(formats.shuffle_keys(doc, rng), indent=rng.choice([None, 1, 2, 4]))
         return json.dumps(doc, indent=4, sort_keys=True)
     if fmt == "treeinfo":
+        if rng is not None and rng.random() < 0.5:
+            from rv import downconvert
+            return downconvert.render_ini(doc, rng)
         return write_ini(doc)
     return "\n".join(doc)
 
